@@ -288,7 +288,7 @@ func genC12(t *rapid.T) *Bundle {
 	}
 	g := &c12Gen{t: t, root: root}
 	T, U := root+"t", root+"u"
-	shape := g.pick("shape", "plain", "plain", "where", "order_total", "order_ties", "limit", "distinct", "group", "whole_agg", "join", "pjoin", "derived", "cte", "cte_direct", "dual", "union", "slice", "alias", "star", "nested_from", "group_star", "in_subquery", "having", "cte_col", "cte_twice", "offset_window", "join_into", "join_into", "join_unaliased")
+	shape := g.pick("shape", "plain", "plain", "where", "order_total", "order_ties", "limit", "distinct", "group", "whole_agg", "join", "pjoin", "derived", "cte", "cte_direct", "dual", "union", "slice", "alias", "star", "nested_from", "group_star", "in_subquery", "having", "cte_col", "cte_twice", "offset_window", "join_into", "join_into", "join_unaliased", "distinct_async")
 	seq := true
 	var q string
 	switch shape {
@@ -330,6 +330,10 @@ func genC12(t *rapid.T) *Bundle {
 		}
 		q = fmt.Sprintf("SELECT %s FROM %s x %s %s y ON x.id %s y.id", sel, T, jt, U, op)
 		seq = false
+	case "distinct_async":
+		g.site++
+		g.sites = append(g.sites, g.site)
+		q = fmt.Sprintf("SELECT DISTINCT %s, ASYNC.fx(%d, a) AS y FROM %s", g.pick("dcol", "s", "f", "z"), g.site, T)
 	case "join_into":
 		jt := g.pick("jt_into", "JOIN", "LEFT JOIN", "RIGHT JOIN", "HASH_JOIN", "LEFT HASH_JOIN", "PARALLEL LEFT JOIN", "PARALLEL JOIN")
 		op := "="
